@@ -146,6 +146,7 @@ def _install():
         return True
 
     inst.ensure(fmatrix.ForceMatrix, "__post_init__", system_matches_oracle)
+    mon.check_object = system_matches_oracle
     _MON = mon
     return mon
 
@@ -175,11 +176,27 @@ def _one(rng, fam, at, mon, sigs, hist):
         solver = fs.ForSys({0: fr})
         CTX["cur"] = {"at": at, "r": r, "fit": fit, "ignore_four": ign, "fam": fam, "pose": posed}
         try:
+            if rng.random() < 0.5:
+                # an earlier build of the same frame with OTHER options must not influence this one
+                CTX["cur"] = None
+                try:
+                    solver.build_force_matrix(when=0, metadata={"ignore_four": not ign},
+                                              circle_fit_method=["dlite", "taubinSVD"][int(rng.integers(2))])
+                except Exception:
+                    pass
+                CTX["cur"] = {"at": at, "r": r, "fit": fit, "ignore_four": ign, "fam": fam, "pose": posed}
+                hist["rebuilt-with-other-options"] = hist.get("rebuilt-with-other-options", 0) + 1
             solver.build_force_matrix(when=0, metadata={"ignore_four": ign}, circle_fit_method=fit)
         except Exception as exc:
             import traceback
             mon.fail("build-raises", "the system can be assembled", exc=repr(exc)[:200], fam=fam, pose=posed, fit=fit,
                      tb=traceback.format_exc()[-600:])
+        cur = CTX["cur"]
+        if "shape" not in cur and 0 in solver.force_matrices and not any(f["mech"] == "build-raises" for f in mon.fails):
+            # the constructor contract did not run for this build (e.g. a cached object was returned): judge what the
+            # solver now holds for the frame
+            hist["judged-without-constructor"] = hist.get("judged-without-constructor", 0) + 1
+            mon.check_object(solver.force_matrices[0])
         cur = CTX.pop("cur")
     if cap.unraisable:
         mon.fail("unraisable", "no swallowed destructor error", events=cap.unraisable[:2])
